@@ -137,7 +137,7 @@ fn read_once(rng: &mut Rng, lits: &mut Vec<String>) -> String {
 /// caller retries with the next sub-stream in that case.
 fn gen_model_text(rng: &mut Rng) -> String {
     let names = VAR_POOL[rng.weighted(&[5, 2, 2, 1, 1])];
-    let n = rng.weighted(&[0, 0, 3, 4, 3, 2]); // 2..=5 variables
+    let n = rng.weighted(&[0, 1, 3, 4, 3, 2]); // 1..=5 variables
     let vars: Vec<&str> = names[..n].to_vec();
     let mut lines: Vec<String> = Vec::new();
     let mut param_bits = 0usize;
